@@ -9,30 +9,48 @@ order, with names, embedded flags and tags – for pointers, slices, arrays (wit
 structs, signatures (parameters, results, variadic flag, receiver), defined types under the alias rule, and
 the flattening rule (the object of a defined type over a struct is described by the struct node).
 
-Scope: programs without generic declarations (`NoGenerics`); method sets are not part of `Desc` (they are
-attached in a later phase and are compared on the real code by the correspondence and the oracle).
+Scope: all programs of the model, v2's generic declarations included (a generic struct is registered under `Foo[T]`,
+described by the underlying node of its origin whichever use is seen first, its fields of parameter type refer to
+`TypeParam` objects).  Method sets are not part of `Desc` (they are attached in a later phase and are compared on the
+real code by the correspondence and the oracle).
 -/
 namespace Gengo.WalkDesc
 open Gengo Gengo.Universe Gengo.WalkInv
 
-/-- no generic declarations and no type parameters in the program -/
+/-- no generic declarations and no type parameters in the program (no theorem needs this any more; it is still reported
+per correspondence case as a statistic) -/
 structure NoGenerics (F : Facts) : Prop where
   named : ∀ g und ms tps origUnd, F.node g = .named und ms tps origUnd → tps = []
   notparam : ∀ g c, F.node g ≠ .tparam c
 
 /-- `r` is the object that stands for node `c`: the one registered under the node's name (type aliases are
-transparent, basic types are registered under their bare name) -/
+transparent, basic types are registered under their bare name, a generic declaration is registered under
+`Foo[T]`); a type parameter is never registered: it is a `TypeParam` object of that name -/
 inductive Res (F : Facts) (v2 : Bool) (u : U) : Nat → Nat → Prop
   | alias {c t r : Nat} : F.node c = .alias t → Res F v2 u t r → Res F v2 u c r
   | basic {c r : Nat} {n : Str} : F.node c = .basic n → AL.lookup (⟨[], n⟩ : Name) u.types = some r → Res F v2 u c r
-  | byName {c r : Nat} : (∀ t, F.node c ≠ .alias t) → (∀ n, F.node c ≠ .basic n) →
-      AL.lookup (nameOf v2 (F.str c)) u.types = some r → Res F v2 u c r
+  | tparam {c r k : Nat} : F.node c = .tparam k →
+      (∃ ob : Obj, u.objs[r]? = some ob ∧ ob.kind = .typeParam ∧ ob.name = nameOf v2 (F.str c)) → Res F v2 u c r
+  | byName {c r : Nat} : (∀ t, F.node c ≠ .alias t) → (∀ n, F.node c ≠ .basic n) → (∀ k, F.node c ≠ .tparam k) →
+      AL.lookup (regName F v2 c) u.types = some r → Res F v2 u c r
 
 theorem Res.mono {F : Facts} {v2 : Bool} {u u' : U} {c r : Nat} (h : Res F v2 u c r) (hg : Grows u u') : Res F v2 u' c r := by
   induction h with
   | alias hn _ ih => exact .alias hn ih
   | basic hn hl => exact .basic hn (hg.idx _ _ hl)
-  | byName h1 h2 hl => exact .byName h1 h2 (hg.idx _ _ hl)
+  | tparam hn ho =>
+    obtain ⟨ob, h1, h2, h3⟩ := ho
+    obtain ⟨ob', k1, k2, k3⟩ := hg.objs _ ob h1
+    exact .tparam hn ⟨ob', k1, by rw [k3 (by rw [h2]; decide), h2], k2.trans h3⟩
+  | byName h1 h2 h3 hl => exact .byName h1 h2 h3 (hg.idx _ _ hl)
+
+/-- nodes other than defined types are registered under their printed name -/
+theorem regName_other {F : Facts} {v2 : Bool} {c : Nat} (h : ∀ und ms tps ou, F.node c ≠ .named und ms tps ou) :
+    regName F v2 c = nameOf v2 (F.str c) := by
+  unfold regName
+  cases hn : F.node c with
+  | named und ms tps ou => exact absurd hn (h und ms tps ou)
+  | _ => rfl
 
 inductive All2 {α β : Type} (R : α → β → Prop) : List α → List β → Prop
   | nil : All2 R [] []
@@ -731,9 +749,104 @@ theorem frozen_of_except {u1 u2 u3 : U} {x : Nat} (h1 : Frozen u1 u2) (h2 : Froz
 theorem lookup_unique {α β} [DecidableEq α] {k : α} {m : List (α × β)} {a b : β} (h1 : AL.lookup k m = some a) (h2 : AL.lookup k m = some b) : a = b := by
   rw [h1] at h2; exact Option.some.inj h2
 
+/-- appending a filled object that its node describes -/
+theorem newObj_dinv {F : Facts} {v2 : Bool} {u : U} {P : List Nat} (ob0 : Obj) (hg : Grows u (u.newObj ob0).1)
+    (hk : ob0.kind ≠ .unknown) (hd : ∀ g, ob0.src = some g → Desc F v2 (u.newObj ob0).1 ob0 g)
+    (h : DInv F v2 u P) : DInv F v2 (u.newObj ob0).1 P := by
+  refine ⟨?_, ?_⟩
+  · intro o ob hob hko
+    have hob' : (u.objs ++ [ob0])[o]? = some ob := hob
+    rcases getElem?_append_new _ _ _ _ hob' with hold | ⟨_, rfl⟩
+    · exact h.bare o ob hold hko
+    · exact absurd hko hk
+  · intro o ob g hob hs
+    have hob' : (u.objs ++ [ob0])[o]? = some ob := hob
+    rcases getElem?_append_new _ _ _ _ hob' with hold | ⟨_, rfl⟩
+    · rcases h.desc o ob g hold hs with hp | hdd
+      · exact .inl hp
+      · exact .inr (hdd.mono hg)
+    · exact .inr (hd g hs)
+
+/-- an update that changes nothing -/
+theorem modify_noop_get (u : U) (o x : Nat) (f : Obj → Obj) (hf : ∀ ob, f ob = ob) : (u.modify o f).objs[x]? = u.objs[x]? := by
+  by_cases hox : o = x
+  · subst hox
+    cases h0 : u.objs[o]? with
+    | none => simp [U.modify, h0]
+    | some ob => rw [modify_get_eq h0, hf]
+  · exact modify_get_ne hox
+
+/-- children that are walked for their effect on the universe only (`drop`): the owner is not touched -/
+theorem runKids_drop_desc {F : Facts} {v2 : Bool} {bt : List Builtin} {w : U → Nat → Option Name → Option (U × Nat)}
+    (hw : WalkOK bt w) (hd : WalkDescOK F v2 bt w) (o : Nat) (P : List Nat) :
+    ∀ (cs : List Nat) (u u' : U), WalkInv.Inv bt u → DInv F v2 u P →
+      runKids w o u (cs.map (fun c => (c, none, Setter.drop))) = some u' → DInv F v2 u' P ∧ Frozen u u' := by
+  intro cs
+  induction cs with
+  | nil => intro u u' _ hdi hr; simp only [List.map_nil, runKids, Option.some.injEq] at hr; subst hr; exact ⟨hdi, Frozen.refl _⟩
+  | cons c cs ih =>
+    intro u u' hi hdi hr
+    simp only [List.map_cons, runKids] at hr
+    cases hwc : w u c none with
+    | none => simp [hwc] at hr
+    | some p =>
+      obtain ⟨u1, oc⟩ := p
+      simp only [hwc] at hr
+      have p1 := hw u c none u1 oc hi hwc
+      obtain ⟨d1, f1, _⟩ := hd u c none u1 oc P hi hdi hwc
+      obtain ⟨i2, g2⟩ := modify_inv (o := o) (setter_goodUpdate u1 o .drop oc p1.good) p1.inv
+      have d2 : DInv F v2 (u1.modify o (fun ob => Setter.drop.apply ob oc)) P :=
+        modify_same_dinv g2 (fun ob => SameShape.refl ob) d1
+      obtain ⟨d3, f3⟩ := ih _ _ i2 d2 hr
+      refine ⟨d3, ?_⟩
+      intro x ob hx hkx
+      have h1 := f1 x ob hx hkx
+      have h2 : (u1.modify o (fun ob => Setter.drop.apply ob oc)).objs[x]? = some ob := by
+        rw [modify_noop_get u1 o x (fun ob => Setter.drop.apply ob oc) (fun _ => rfl)]; exact h1
+      exact f3 x ob h2 hkx
+
+/-- children whose setters change nothing `Desc` looks at (methods, type parameters), stored in an object that has a kind -/
+theorem runKids_neutral_desc {F : Facts} {v2 : Bool} {bt : List Builtin} {w : U → Nat → Option Name → Option (U × Nat)}
+    (hw : WalkOK bt w) (hd : WalkDescOK F v2 bt w) (u : U) (o : Nat) (kids : List (Nat × Option Name × Setter)) (P : List Nat)
+    (hneutral : ∀ (ob : Obj) (ocs : List Nat), SameShape ob (applySetters ob kids ocs))
+    (u' : U) (hi : WalkInv.Inv bt u) (hdi : DInv F v2 u P) (hkn : Known u o)
+    (hr : runKids w o u kids = some u') : DInv F v2 u' P ∧ FrozenExcept o u u' := by
+  obtain ⟨ob0, hob0, hk0⟩ := hkn
+  obtain ⟨d3, fe3, g3, ocs, _, hobf, _⟩ := runKids_desc hw hd o P kids u ob0 u' hi (hdi.weaken o) hob0 hk0 hr
+  refine ⟨⟨d3.bare, ?_⟩, fe3⟩
+  intro x obx gx hx hs
+  by_cases hox : o = x
+  · subst hox
+    rw [hobf] at hx; cases hx
+    have hsame := hneutral ob0 ocs
+    have hs0 : ob0.src = some gx := by rw [hsame.2.2.2.2.2.2.2.2.2.2.2]; exact hs
+    rcases hdi.desc o ob0 gx hob0 hs0 with hp | hdd
+    · exact .inl hp
+    · exact .inr (Desc.congr hsame (hdd.mono g3))
+  · rcases d3.desc x obx gx hx hs with hp | hdd
+    · rcases List.mem_cons.mp hp with rfl | hp
+      · exact absurd rfl hox
+      · exact .inl hp
+    · exact .inr hdd
+
+/-- a list of type-parameter setters changes nothing `Desc` looks at -/
+theorem applySetters_tparams_same : ∀ (tps : List (Str × Nat)) (ob : Obj) (ocs : List Nat),
+    SameShape ob (applySetters ob (tps.map (fun tp => (tp.2, none, Setter.tparam tp.1))) ocs) := by
+  intro tps
+  induction tps with
+  | nil => intro ob ocs; simp [applySetters]; exact SameShape.refl ob
+  | cons m ms ih =>
+    intro ob ocs
+    cases ocs with
+    | nil => simp only [List.map_cons, applySetters]; exact SameShape.refl ob
+    | cons x xs =>
+      simp only [List.map_cons, applySetters]
+      exact SameShape.trans (b := (Setter.tparam m.1).apply ob x) ⟨rfl, rfl, rfl, rfl, rfl, rfl, rfl, rfl, rfl, rfl, rfl, rfl⟩
+        (ih ((Setter.tparam m.1).apply ob x) xs)
+
 /-- **walk_describes**: `walkType` keeps "every filled object is described by its node", does not touch objects
 that already have a kind, and returns the object that stands for the node it was called on -/
-theorem walk_desc (bt : List Builtin) (F : Facts) (v2 : Bool) (hng : NoGenerics F) (hwf : WellFormed F v2) :
+theorem walk_desc (bt : List Builtin) (F : Facts) (v2 : Bool) (hwf : WellFormed F v2) :
     ∀ fuel, WalkDescOK F v2 bt (fun u c un => walk bt F v2 fuel u c un) := by
   intro fuel
   induction fuel with
@@ -753,40 +866,83 @@ theorem walk_desc (bt : List Builtin) (F : Facts) (v2 : Bool) (hng : NoGenerics 
           have : applySetters (markFields (.basic nm) ob) [] ocs = ob := by cases ocs <;> rfl
           rw [this]; unfold Desc; simp only [hn]; exact hk) u' o hi hdi hw
       exact ⟨d, f, fun _ => .basic hn l⟩
-    | tparam c => exact absurd hn (hng.notparam g c)
+    | tparam c =>
+      simp only [walk, hn, Option.some.injEq] at hw
+      obtain ⟨_, g1, o1, _, _, _, _⟩ := newObj_inv (bt := bt) (u := u)
+        { name := useName.getD (nameOf v2 (F.str g)), kind := .typeParam, src := some g } (by simp [refs]) hi
+      have d1 : DInv F v2 (u.newObj { name := useName.getD (nameOf v2 (F.str g)), kind := .typeParam, src := some g }).1 P :=
+        newObj_dinv _ g1 (by simp) (fun g' hg' => by
+          simp only [Option.some.injEq] at hg'; subst hg'
+          unfold Desc; simp only [hn]) hdi
+      have e : u.newObj { name := useName.getD (nameOf v2 (F.str g)), kind := .typeParam, src := some g } = (u', o) := hw
+      rw [e] at d1 o1
+      refine ⟨d1, ?_, fun hun => .tparam hn ⟨_, o1, rfl, by subst hun; rfl⟩⟩
+      intro x ob hx _
+      have : (u.newObj { name := useName.getD (nameOf v2 (F.str g)), kind := .typeParam, src := some g }).1.objs[x]? = some ob :=
+        getElem?_append_old _ _ _ _ hx
+      rw [e] at this; exact this
     | named und ms tps ou =>
-      have htps := hng.named g und ms tps ou hn
-      subst htps
-      obtain ⟨hund, horig⟩ := hwf.under g und ms [] ou hn
-      have hres : AL.lookup (nameOf v2 (F.str g)) u'.types = some o :=
-        walk_named_idx bt F v2 fuel u g useName und ms ou hn hund horig u' o hi hw
-      have hbyname : Res F v2 u' g o := .byName (by intro t; simp [hn]) (by intro n; simp [hn]) hres
+      obtain ⟨hund, horig⟩ := hwf.under g und ms tps ou hn
+      have hres : AL.lookup (regName F v2 g) u'.types = some o :=
+        walk_named_idx bt F v2 fuel u g useName und ms tps ou hn hund horig u' o hi hw
+      have hbyname : Res F v2 u' g o := .byName (by intro t; simp [hn]) (by intro n; simp [hn]) (by intro k; simp [hn]) hres
       simp only [walk, hn] at hw
-      obtain ⟨h1, g1, l1⟩ := type_inv (bt := bt) (nameOf v2 (F.str g)) hi
-      have d1 := type_dinv (F := F) (v2 := v2) (P := P) (nameOf v2 (F.str g)) hi hdi
-      have f1 := type_frozen bt u (nameOf v2 (F.str g))
-      obtain ⟨ob1, hob1, _⟩ := h1.nameOK _ _ l1
       -- the common "already has a kind" exit
-      have known_exit : (U.type bt u (nameOf v2 (F.str g))) = (u', o) → DInv F v2 u' P ∧ Frozen u u' := by
-        intro e
-        have e1 : (U.type bt u (nameOf v2 (F.str g))).1 = u' := by rw [e]
+      have known_exit : ∀ (ux : U) (nx : Name), WalkInv.Inv bt ux → DInv F v2 ux P → (U.type bt ux nx) = (u', o) →
+          DInv F v2 u' P ∧ Frozen ux u' := by
+        intro ux nx hix hdx e
+        have d1 := type_dinv (F := F) (v2 := v2) (P := P) nx hix hdx
+        have f1 := type_frozen bt ux nx
+        have e1 : (U.type bt ux nx).1 = u' := by rw [e]
         rw [e1] at d1 f1; exact ⟨d1, f1⟩
-      -- an object that has no kind in `(U.type …).1` has none (or does not exist) in `u`
-      have unk_in_u : (U.type bt u (nameOf v2 (F.str g))).1.kind (U.type bt u (nameOf v2 (F.str g))).2 = .unknown →
-          ∀ ob : Obj, u.objs[(U.type bt u (nameOf v2 (F.str g))).2]? = some ob → ob.kind = .unknown := by
-        intro hunk ob hob
-        have := type_keeps bt u (nameOf v2 (F.str g)) _ ob hob
+      -- an object that has no kind in `(U.type …).1` has none (or does not exist) before
+      have unk_in_u : ∀ (ux : U) (nx : Name), (U.type bt ux nx).1.kind (U.type bt ux nx).2 = .unknown →
+          ∀ ob : Obj, ux.objs[(U.type bt ux nx).2]? = some ob → ob.kind = .unknown := by
+        intro ux nx hunk ob hob
+        have := type_keeps bt ux nx _ ob hob
         rw [kind_of_obj this] at hunk; exact hunk
+      -- the flattening rule: the walk of the underlying node under the outer name fills the object of that name
+      have flatten : ∀ (ux : U) (nx : Name) (c : Nat) (u5 : U) (o5 : Nat), WalkInv.Inv bt ux → DInv F v2 ux P →
+          (∃ K kids, shape v2 (F.node c) = some (K, kids)) →
+          walk bt F v2 fuel (U.type bt ux nx).1 c (some nx) = some (u5, o5) →
+          DInv F v2 u5 P ∧ Frozen ux u5 ∧ WalkInv.Inv bt u5 ∧ Known u5 o5 ∧ o5 = (U.type bt ux nx).2 := by
+        intro ux nx c u5 o5 hix hdx hsc hw2
+        obtain ⟨h1, _, l1⟩ := type_inv (bt := bt) nx hix
+        have d1 := type_dinv (F := F) (v2 := v2) (P := P) nx hix hdx
+        have f1 := type_frozen bt ux nx
+        obtain ⟨d5, f5, _⟩ := ih _ c _ u5 o5 P h1 d1 hw2
+        have p5 := ihw _ c _ u5 o5 h1 hw2
+        have l5 : AL.lookup nx u5.types = some o5 := by
+          obtain ⟨K, kids, hs⟩ := hsc
+          cases fuel with
+          | zero => simp [walk] at hw2
+          | succ f =>
+            have ihf := walk_inv bt F v2 f
+            simp only [walk] at hw2
+            cases hc : F.node c with
+            | alias _ => simp [hc, shape] at hs
+            | basic _ => simp [hc, shape] at hs
+            | tparam _ => simp [hc, shape] at hs
+            | named _ _ _ _ => simp [hc, shape] at hs
+            | _ =>
+              simp only [hc] at hw2 hs
+              simp only [hs, Option.getD_some] at hw2
+              exact fill_idx ihf _ _ c _ K kids u5 o5 h1 hw2
+        have e5 : o5 = (U.type bt ux nx).2 := lookup_unique l5 (p5.grows.idx _ _ l1)
+        exact ⟨d5, f1.trans f5, p5.inv, p5.good.1, e5⟩
       by_cases ha : isAliasUnder (F.node und) = true
       · simp only [ha, if_true] at hw
+        obtain ⟨h1, g1, l1⟩ := type_inv (bt := bt) (nameOf v2 (F.str g)) hi
+        have d1 := type_dinv (F := F) (v2 := v2) (P := P) (nameOf v2 (F.str g)) hi hdi
+        have f1 := type_frozen bt u (nameOf v2 (F.str g))
+        obtain ⟨ob1, hob1, _⟩ := h1.nameOK _ _ l1
         by_cases hk : (U.type bt u (nameOf v2 (F.str g))).1.kind (U.type bt u (nameOf v2 (F.str g))).2 ≠ .unknown
         · simp only [hk, ne_eq, not_false_eq_true, if_true, Option.some.injEq] at hw
-          obtain ⟨d, f⟩ := known_exit hw
+          obtain ⟨d, f⟩ := known_exit u _ hi hdi hw
           exact ⟨d, f, fun _ => hbyname⟩
         · simp only [hk, if_false] at hw
           have hunk : (U.type bt u (nameOf v2 (F.str g))).1.kind (U.type bt u (nameOf v2 (F.str g))).2 = .unknown := by simpa using hk
           have hunk1 : ob1.kind = .unknown := by rw [kind_of_obj hob1] at hunk; exact hunk
-          have hbare := d1.bare _ ob1 hob1 hunk1
           obtain ⟨h2, g2⟩ := modify_inv (o := (U.type bt u (nameOf v2 (F.str g))).2)
             (mark_goodUpdate _ _ (fun ob => { ob with kind := .alias, src := some g }) hunk (fun ob => ⟨rfl, rfl⟩)) h1
           have d2 : DInv F v2 ((U.type bt u (nameOf v2 (F.str g))).1.modify (U.type bt u (nameOf v2 (F.str g))).2 (fun ob => { ob with kind := .alias, src := some g }))
@@ -829,73 +985,65 @@ theorem walk_desc (bt : List Builtin) (F : Facts) (v2 : Bool) (hng : NoGenerics 
             obtain ⟨d4, fe4⟩ := addMethods_desc ihw ih u3 _ ms P u' o h3 d3' hknown hw
             refine ⟨d4, ?_, fun _ => hbyname⟩
             have fA : Frozen u u3 := by
-              refine frozen_of_except (x := (U.type bt u (nameOf v2 (F.str g))).2) f1 ?_ (unk_in_u hunk)
+              refine frozen_of_except (x := (U.type bt u (nameOf v2 (F.str g))).2) f1 ?_ (unk_in_u u _ hunk)
               intro x ob hxo hx hkx
               have hx2 : ((U.type bt u (nameOf v2 (F.str g))).1.modify (U.type bt u (nameOf v2 (F.str g))).2 (fun ob => { ob with kind := .alias, src := some g })).objs[x]? = some ob := by
                 rw [modify_get_ne (Ne.symm hxo)]; exact hx
               exact fe3 x ob hxo hx2 hkx
-            exact frozen_of_except fA fe4 (unk_in_u hunk)
+            exact frozen_of_except fA fe4 (unk_in_u u _ hunk)
       · simp only [ha, Bool.false_eq_true, if_false] at hw
+        have ha' : isAliasUnder (F.node und) = false := by simpa using ha
         have hshape : ∃ K kids, shape v2 (F.node und) = some (K, kids) := by
           rcases hund with h | h
           · exact absurd h ha
           · exact h
-        -- the flattening rule, shared by the v1 branch and the (generics-free) v2 struct/interface branch
-        have flatten : ∀ (c : Nat) (u5 : U) (o5 : Nat), (∃ K kids, shape v2 (F.node c) = some (K, kids)) →
-            (U.type bt u (nameOf v2 (F.str g))).1.kind (U.type bt u (nameOf v2 (F.str g))).2 = .unknown →
-            walk bt F v2 fuel (U.type bt u (nameOf v2 (F.str g))).1 c (some (nameOf v2 (F.str g))) = some (u5, o5) →
-            DInv F v2 u5 P ∧ Frozen u u5 ∧ WalkInv.Inv bt u5 ∧ Known u5 o5 ∧ o5 = (U.type bt u (nameOf v2 (F.str g))).2 := by
-          intro c u5 o5 hsc hunk hw2
-          obtain ⟨d5, f5, _⟩ := ih _ c _ u5 o5 P h1 d1 hw2
-          have p5 := ihw _ c _ u5 o5 h1 hw2
-          -- the inner walk is a `fill` under the outer name: its result is the object registered under that name
-          have l5 : AL.lookup (nameOf v2 (F.str g)) u5.types = some o5 := by
-            obtain ⟨K, kids, hs⟩ := hsc
-            cases fuel with
-            | zero => simp [walk] at hw2
-            | succ f =>
-              have ihf := walk_inv bt F v2 f
-              simp only [walk] at hw2
-              cases hc : F.node c with
-              | alias _ => simp [hc, shape] at hs
-              | basic _ => simp [hc, shape] at hs
-              | tparam _ => simp [hc, shape] at hs
-              | named _ _ _ _ => simp [hc, shape] at hs
-              | _ =>
-                simp only [hc] at hw2 hs
-                simp only [hs, Option.getD_some] at hw2
-                exact fill_idx ihf _ _ c _ K kids u5 o5 h1 hw2
-          have e5 : o5 = (U.type bt u (nameOf v2 (F.str g))).2 := lookup_unique l5 (p5.grows.idx _ _ l1)
-          exact ⟨d5, f1.trans f5, p5.inv, p5.good.1, e5⟩
         by_cases hs : (v2 && isStructOrIface (F.node und)) = true
-        · simp only [hs, if_true, List.map_nil, runKids, List.isEmpty_nil] at hw
-          by_cases hk : (U.type bt u (nameOf v2 (F.str g))).1.kind (U.type bt u (nameOf v2 (F.str g))).2 ≠ .unknown
-          · simp only [hk, ne_eq, not_false_eq_true, if_true, Option.some.injEq] at hw
-            obtain ⟨d, f⟩ := known_exit hw
-            exact ⟨d, f, fun _ => hbyname⟩
-          · simp only [hk, if_false] at hw
-            have hunk : (U.type bt u (nameOf v2 (F.str g))).1.kind (U.type bt u (nameOf v2 (F.str g))).2 = .unknown := by simpa using hk
-            cases hw2 : walk bt F v2 fuel (U.type bt u (nameOf v2 (F.str g))).1 ou (some (nameOf v2 (F.str g))) with
-            | none => simp [hw2] at hw
-            | some p =>
-              obtain ⟨u3, o3⟩ := p
-              simp only [hw2] at hw
-              obtain ⟨d3, f3, i3, k3, e3⟩ := flatten ou u3 o3 (horig (by simpa using ha) hs) hunk hw2
-              obtain ⟨i4, g4⟩ := modify_inv (o := o3) (f := fun ob => { ob with tparams := [] })
-                (fun ob _ => ⟨rfl, fun _ => rfl, fun r hr => .inl (by
-                  simp only [refs, List.map_nil, List.append_nil, List.mem_append] at hr ⊢
-                  exact .inl hr)⟩) i3
-              have d4 : DInv F v2 (u3.modify o3 (fun ob => { ob with tparams := [] })) P :=
-                modify_same_dinv g4 (fun ob => ⟨rfl, rfl, rfl, rfl, rfl, rfl, rfl, rfl, rfl, rfl, rfl, rfl⟩) d3
-              obtain ⟨d5, fe5⟩ := addMethods_desc ihw ih _ o3 ms P u' o i4 d4 (k3.mono g4) hw
-              refine ⟨d5, ?_, fun _ => hbyname⟩
-              have fB : Frozen u (u3.modify o3 (fun ob => { ob with tparams := [] })) :=
-                frozen_of_except f3 (modify_frozenExcept u3 o3 _) (by rw [e3]; exact unk_in_u hunk)
-              exact frozen_of_except fB fe5 (by rw [e3]; exact unk_in_u hunk)
+        · simp only [hs, if_true] at hw
+          -- the constraints of the type parameters are walked first; nothing is stored
+          have hdropmap : tps.map (fun tp => (tp.2, (none : Option Name), Setter.drop)) =
+              (tps.map (·.2)).map (fun c => (c, none, Setter.drop)) := by
+            simp [List.map_map, Function.comp_def]
+          cases hr0 : runKids (fun u c un => walk bt F v2 fuel u c un) 0 u (tps.map (fun tp => (tp.2, none, Setter.drop))) with
+          | none => simp [hr0] at hw
+          | some u1 =>
+            simp only [hr0] at hw
+            obtain ⟨i1, _⟩ := runKids_inv ihw 0 _ _ _ hi hr0
+            obtain ⟨dd1, fr1⟩ := runKids_drop_desc ihw ih 0 P (tps.map (·.2)) u u1 hi hdi (by rw [← hdropmap]; exact hr0)
+            generalize hnm : (if tps.isEmpty = true then nameOf v2 (F.str g) else genericName (nameOf v2 (F.str g)) tps) = n' at hw
+            by_cases hk : (U.type bt u1 n').1.kind (U.type bt u1 n').2 ≠ .unknown
+            · simp only [hk, ne_eq, not_false_eq_true, if_true, Option.some.injEq] at hw
+              obtain ⟨d, f⟩ := known_exit u1 n' i1 dd1 hw
+              exact ⟨d, fr1.trans f, fun _ => hbyname⟩
+            · simp only [hk, if_false] at hw
+              have hunk : (U.type bt u1 n').1.kind (U.type bt u1 n').2 = .unknown := by simpa using hk
+              cases hw2 : walk bt F v2 fuel (U.type bt u1 n').1 ou (some n') with
+              | none => simp [hw2] at hw
+              | some p =>
+                obtain ⟨u3, o3⟩ := p
+                simp only [hw2] at hw
+                obtain ⟨d3, f3, i3, k3, e3⟩ := flatten u1 n' ou u3 o3 i1 dd1 (horig ha' hs) hw2
+                obtain ⟨i4, g4⟩ := modify_inv (o := o3) (f := fun ob => { ob with tparams := [] })
+                  (fun ob _ => ⟨rfl, fun _ => rfl, fun r hr => .inl (by
+                    simp only [refs, List.map_nil, List.append_nil, List.mem_append] at hr ⊢
+                    exact .inl hr)⟩) i3
+                have d4 : DInv F v2 (u3.modify o3 (fun ob => { ob with tparams := [] })) P :=
+                  modify_same_dinv g4 (fun ob => ⟨rfl, rfl, rfl, rfl, rfl, rfl, rfl, rfl, rfl, rfl, rfl, rfl⟩) d3
+                have fB : Frozen u1 (u3.modify o3 (fun ob => { ob with tparams := [] })) :=
+                  frozen_of_except f3 (modify_frozenExcept u3 o3 _) (by rw [e3]; exact unk_in_u u1 n' hunk)
+                cases hr5 : runKids (fun u c un => walk bt F v2 fuel u c un) o3 (u3.modify o3 (fun ob => { ob with tparams := [] }))
+                    (tps.map (fun tp => (tp.2, none, Setter.tparam tp.1))) with
+                | none => simp [hr5] at hw
+                | some u5 =>
+                  simp only [hr5] at hw
+                  obtain ⟨i5, g5⟩ := runKids_inv ihw o3 _ _ _ i4 hr5
+                  obtain ⟨d5, fe5⟩ := runKids_neutral_desc ihw ih _ o3 _ P (applySetters_tparams_same tps) u5 i4 d4 (k3.mono g4) hr5
+                  have fC : Frozen u1 u5 := frozen_of_except fB fe5 (by rw [e3]; exact unk_in_u u1 n' hunk)
+                  obtain ⟨d6, fe6⟩ := addMethods_desc ihw ih u5 o3 ms P u' o i5 d5 ((k3.mono g4).mono g5) hw
+                  exact ⟨d6, fr1.trans (frozen_of_except fC fe6 (by rw [e3]; exact unk_in_u u1 n' hunk)), fun _ => hbyname⟩
         · simp only [hs, Bool.false_eq_true, if_false] at hw
           by_cases hk : (U.type bt u (nameOf v2 (F.str g))).1.kind (U.type bt u (nameOf v2 (F.str g))).2 ≠ .unknown
           · simp only [hk, ne_eq, not_false_eq_true, if_true, Option.some.injEq] at hw
-            obtain ⟨d, f⟩ := known_exit hw
+            obtain ⟨d, f⟩ := known_exit u _ hi hdi hw
             exact ⟨d, f, fun _ => hbyname⟩
           · simp only [hk, if_false] at hw
             have hunk : (U.type bt u (nameOf v2 (F.str g))).1.kind (U.type bt u (nameOf v2 (F.str g))).2 = .unknown := by simpa using hk
@@ -904,9 +1052,9 @@ theorem walk_desc (bt : List Builtin) (F : Facts) (v2 : Bool) (hng : NoGenerics 
             | some p =>
               obtain ⟨u3, o3⟩ := p
               simp only [hw2] at hw
-              obtain ⟨d3, f3, i3, k3, e3⟩ := flatten und u3 o3 hshape hunk hw2
+              obtain ⟨d3, f3, i3, k3, e3⟩ := flatten u _ und u3 o3 hi hdi hshape hw2
               obtain ⟨d5, fe5⟩ := addMethods_desc ihw ih u3 o3 ms P u' o i3 d3 k3 hw
-              exact ⟨d5, frozen_of_except f3 fe5 (by rw [e3]; exact unk_in_u hunk), fun _ => hbyname⟩
+              exact ⟨d5, frozen_of_except f3 fe5 (by rw [e3]; exact unk_in_u u _ hunk), fun _ => hbyname⟩
     | _ =>
       -- the unnamed type nodes: `fill` with the node's shape
       have hs : ∃ K kids, shape v2 (F.node g) = some (K, kids) := by rw [hn]; exact ⟨_, _, rfl⟩
@@ -920,7 +1068,8 @@ theorem walk_desc (bt : List Builtin) (F : Facts) (v2 : Bool) (hng : NoGenerics 
         (fun u3 ob ocs hfr hk hl hall => shape_match g K kids hs u3 ob ocs hfr hk hl hall) u' o hi hdi hw'
       refine ⟨d, f, fun hun => ?_⟩
       subst hun
-      exact .byName (by intro t; simp [hn]) (by intro n; simp [hn]) l
+      have hreg : regName F v2 g = nameOf v2 (F.str g) := regName_other (by intro a b c d h; rw [hn] at h; cases h)
+      exact .byName (by intro t; simp [hn]) (by intro n; simp [hn]) (by intro k; simp [hn]) (by rw [hreg]; exact l)
 
 /-! ## declarations, package scans, loaders -/
 open Gengo.Loader
@@ -995,7 +1144,7 @@ theorem decl_dinv {F : Facts} {v2 : Bool} {bt : List Builtin} {u : U} {P : List 
       · exact .inr (hd.mono hg)
     · rw [hnew.2] at hs; cases hs
 
-theorem addDecl_full {bt : List Builtin} (F : Facts) (v2 : Bool) (hng : NoGenerics F) (hwf : WellFormed F v2) (fuel : Nat) (u : U)
+theorem addDecl_full {bt : List Builtin} (F : Facts) (v2 : Bool) (hwf : WellFormed F v2) (fuel : Nat) (u : U)
     (d : Decl) (n : Name) (ty : Nat) (cv : Option Str) (u' : U) (h : Full bt F v2 u)
     (hf : addDecl bt F v2 fuel u d n ty cv = some u') : Full bt F v2 u' := by
   refine ⟨(addDecl_inv F v2 fuel u d n ty cv u' h.1 hf).1, ?_⟩
@@ -1028,7 +1177,7 @@ theorem addDecl_full {bt : List Builtin} (F : Facts) (v2 : Bool) (hng : NoGeneri
     simp only [hw, Option.some.injEq] at hf
     subst hf
     have p3 := walk_inv bt F v2 fuel _ _ _ _ _ h2 hw
-    obtain ⟨d3, f3, _⟩ := walk_desc bt F v2 hng hwf fuel _ ty none u3 o3 [] h2 d2 hw
+    obtain ⟨d3, f3, _⟩ := walk_desc bt F v2 hwf fuel _ ty none u3 o3 [] h2 d2 hw
     have hob3 : u3.objs[(u.decl d n).2]? = some { ob with kind := .declarationOf } :=
       f3 _ _ (modify_get_eq hob) (by simp)
     obtain ⟨_, g4⟩ := modify_inv (o := (u.decl d n).2)
@@ -1047,7 +1196,7 @@ theorem addDecl_full {bt : List Builtin} (F : Facts) (v2 : Bool) (hng : NoGeneri
         · exact .inl (.inr hr)⟩) p3.inv
     exact modify_nosrc_dinv g4 (fun ob' hob' => by rw [hob3] at hob'; cases hob'; exact ⟨by simp, hsrc⟩) d3
 
-theorem addObj_full {bt : List Builtin} (F : Facts) (v2 : Bool) (hng : NoGenerics F) (hwf : WellFormed F v2) (fuel : Nat) (u : U)
+theorem addObj_full {bt : List Builtin} (F : Facts) (v2 : Bool) (hwf : WellFormed F v2) (fuel : Nat) (u : U)
     (ob : GObj) (u' : U) (h : Full bt F v2 u) (hf : addObj bt F v2 fuel u ob = some u') : Full bt F v2 u' := by
   unfold addObj at hf
   cases hk : ob.kind with
@@ -1058,12 +1207,12 @@ theorem addObj_full {bt : List Builtin} (F : Facts) (v2 : Bool) (hng : NoGeneric
     | some p =>
       simp only [hw, Option.map_some, Option.some.injEq] at hf
       subst hf
-      exact ⟨(walk_inv bt F v2 fuel _ _ _ _ _ h.1 hw).inv, (walk_desc bt F v2 hng hwf fuel _ _ _ _ _ [] h.1 h.2 hw).1⟩
-  | func => simp only [hk] at hf; exact addDecl_full F v2 hng hwf fuel u _ _ _ _ u' h hf
-  | var => simp only [hk] at hf; exact addDecl_full F v2 hng hwf fuel u _ _ _ _ u' h hf
-  | const => simp only [hk] at hf; exact addDecl_full F v2 hng hwf fuel u _ _ _ _ u' h hf
+      exact ⟨(walk_inv bt F v2 fuel _ _ _ _ _ h.1 hw).inv, (walk_desc bt F v2 hwf fuel _ _ _ _ _ [] h.1 h.2 hw).1⟩
+  | func => simp only [hk] at hf; exact addDecl_full F v2 hwf fuel u _ _ _ _ u' h hf
+  | var => simp only [hk] at hf; exact addDecl_full F v2 hwf fuel u _ _ _ _ u' h hf
+  | const => simp only [hk] at hf; exact addDecl_full F v2 hwf fuel u _ _ _ _ u' h hf
 
-theorem addObjs_full {bt : List Builtin} (F : Facts) (v2 : Bool) (hng : NoGenerics F) (hwf : WellFormed F v2) (fuel : Nat) :
+theorem addObjs_full {bt : List Builtin} (F : Facts) (v2 : Bool) (hwf : WellFormed F v2) (fuel : Nat) :
     ∀ (obs : List GObj) (u u' : U), Full bt F v2 u → addObjs bt F v2 fuel u obs = some u' → Full bt F v2 u' := by
   intro obs
   induction obs with
@@ -1075,7 +1224,7 @@ theorem addObjs_full {bt : List Builtin} (F : Facts) (v2 : Bool) (hng : NoGeneri
     | none => simp [ha] at hf
     | some u1 =>
       simp only [ha] at hf
-      exact ih u1 u' (addObj_full F v2 hng hwf fuel u ob u1 h ha) hf
+      exact ih u1 u' (addObj_full F v2 hwf fuel u ob u1 h ha) hf
 
 /-- records of packages and imports are no part of the object store -/
 theorem full_of_same {bt : List Builtin} {F : Facts} {v2 : Bool} {u u' : U} (ho : u'.objs = u.objs) (ht : u'.types = u.types)
@@ -1083,7 +1232,7 @@ theorem full_of_same {bt : List Builtin} {F : Facts} {v2 : Bool} {u u' : U} (ho 
   obtain ⟨hi, hg⟩ := inv_of_same ho ht hb hd h.1
   exact ⟨hi, dinv_of_same ho hg h.2⟩
 
-theorem scanPkg_full {bt : List Builtin} (F : Facts) (v2 : Bool) (hng : NoGenerics F) (hwf : WellFormed F v2) (fuel : Nat) (u : U)
+theorem scanPkg_full {bt : List Builtin} (F : Facts) (v2 : Bool) (hwf : WellFormed F v2) (fuel : Nat) (u : U)
     (p : GPkg) (u' : U) (h : Full bt F v2 u) (hf : scanPkg bt F v2 fuel u p = some u') : Full bt F v2 u' := by
   unfold scanPkg at hf
   obtain ⟨a, b, c, d⟩ := package_objs u p.path
@@ -1093,14 +1242,14 @@ theorem scanPkg_full {bt : List Builtin} (F : Facts) (v2 : Bool) (hng : NoGeneri
   | some u2 =>
     simp only [ha, Option.some.injEq] at hf
     subst hf
-    have h2 := addObjs_full F v2 hng hwf fuel _ _ _ h1 ha
+    have h2 := addObjs_full F v2 hwf fuel _ _ _ h1 ha
     obtain ⟨a', b', c', d'⟩ := addImports_same u2 p.path (p.imports.mergeSort Str.le)
     exact full_of_same a' b' c' d' h2
 
 theorem full_empty (bt : List Builtin) (F : Facts) (v2 : Bool) : Full bt F v2 {} :=
   ⟨inv_empty bt, ⟨fun o ob h => by simp at h, fun o ob g h => by simp at h⟩⟩
 
-theorem visitV2_full (w : World) (hng : NoGenerics w.facts) (hwf : WellFormed w.facts w.v2) :
+theorem visitV2_full (w : World) (hwf : WellFormed w.facts w.v2) :
     ∀ (n : Nat) (st st' : LState) (path : Str), Full w.bt w.facts w.v2 st.u →
     visitV2 w n st path = some st' → Full w.bt w.facts w.v2 st'.u := by
   intro n
@@ -1125,7 +1274,7 @@ theorem visitV2_full (w : World) (hng : NoGenerics w.facts) (hwf : WellFormed w.
           | none => simp [ha] at h
           | some u3 =>
             simp only [ha] at h
-            have h3 := addObjs_full w.facts w.v2 hng hwf w.fuel _ _ _ h2 ha
+            have h3 := addObjs_full w.facts w.v2 hwf w.fuel _ _ _ h2 ha
             generalize hst3 : ({ u := u3, requested := st.requested, processed := st.processed ++ [path] } : LState) = st3 at h
             cases hfold : p.imports.foldl (fun acc i => acc.bind (fun s => visitV2 w n s i)) (some st3) with
             | none => simp [hfold] at h
@@ -1137,25 +1286,25 @@ theorem visitV2_full (w : World) (hng : NoGenerics w.facts) (hwf : WellFormed w.
               obtain ⟨a5, b5, c5, d5⟩ := addImports_same st4.u p.path (p.imports.mergeSort Str.le)
               exact full_of_same a5 b5 c5 d5 h4
 
-theorem addPkgsV2_full (w : World) (hng : NoGenerics w.facts) (hwf : WellFormed w.facts w.v2) (st st' : LState) (roots : List Str)
+theorem addPkgsV2_full (w : World) (hwf : WellFormed w.facts w.v2) (st st' : LState) (roots : List Str)
     (hinv : Full w.bt w.facts w.v2 st.u) (h : addPkgsV2 w st roots = some st') : Full w.bt w.facts w.v2 st'.u := by
   unfold addPkgsV2 at h
   exact foldl_bind_inv (fun s p => visitV2 w (w.pkgs.length + 1) s p) (fun s => Full w.bt w.facts w.v2 s.u)
-    (fun s p s' hs hv => visitV2_full w hng hwf _ s s' p hs hv) _ st st' hinv h
+    (fun s p s' hs hv => visitV2_full w hwf _ s s' p hs hv) _ st st' hinv h
 
 /-- **v2_universe_described**: after `LoadPackages` + `NewUniverse` from nothing the universe is closed, canonical and
 every filled object is described by its node -/
-theorem newUniverseV2_full (w : World) (hng : NoGenerics w.facts) (hwf : WellFormed w.facts w.v2) (req : List Str) (st : LState)
+theorem newUniverseV2_full (w : World) (hwf : WellFormed w.facts w.v2) (req : List Str) (st : LState)
     (h : newUniverseV2 w req = some st) : Full w.bt w.facts w.v2 st.u := by
   unfold newUniverseV2 at h
-  exact addPkgsV2_full w hng hwf _ st _ (full_empty w.bt w.facts w.v2) h
+  exact addPkgsV2_full w hwf _ st _ (full_empty w.bt w.facts w.v2) h
 
-theorem loadToV2_full (w : World) (hng : NoGenerics w.facts) (hwf : WellFormed w.facts w.v2) (st st' : LState) (more : List Str)
+theorem loadToV2_full (w : World) (hwf : WellFormed w.facts w.v2) (st st' : LState) (more : List Str)
     (hinv : Full w.bt w.facts w.v2 st.u) (h : loadToV2 w st more = some st') : Full w.bt w.facts w.v2 st'.u := by
   unfold loadToV2 at h
-  exact addPkgsV2_full w hng hwf { st with requested := more.foldl (fun acc r => if acc.contains r then acc else acc ++ [r]) st.requested } st' more hinv h
+  exact addPkgsV2_full w hwf { st with requested := more.foldl (fun acc r => if acc.contains r then acc else acc ++ [r]) st.requested } st' more hinv h
 
-theorem findTypesInV1_full (w : World) (hng : NoGenerics w.facts) (hwf : WellFormed w.facts w.v2) (st st' : LState) (path : Str)
+theorem findTypesInV1_full (w : World) (hwf : WellFormed w.facts w.v2) (st st' : LState) (path : Str)
     (hinv : Full w.bt w.facts w.v2 st.u) (h : findTypesInV1 w st path = some st') : Full w.bt w.facts w.v2 st'.u := by
   unfold findTypesInV1 at h
   cases hf : w.find path with
@@ -1169,19 +1318,19 @@ theorem findTypesInV1_full (w : World) (hng : NoGenerics w.facts) (hwf : WellFor
       | some u' =>
         simp only [hs, Option.map_some, Option.some.injEq] at h
         subst h
-        exact scanPkg_full w.facts w.v2 hng hwf w.fuel st.u p u' hinv hs
+        exact scanPkg_full w.facts w.v2 hwf w.fuel st.u p u' hinv hs
 
 /-- **v1_universe_described**: the same for `AddDir…` + `FindTypes` -/
-theorem findTypesV1_full (w : World) (hng : NoGenerics w.facts) (hwf : WellFormed w.facts w.v2) (req : List Str) (st : LState)
+theorem findTypesV1_full (w : World) (hwf : WellFormed w.facts w.v2) (req : List Str) (st : LState)
     (h : findTypesV1 w req = some st) : Full w.bt w.facts w.v2 st.u := by
   unfold findTypesV1 at h
   exact foldl_bind_inv (fun s p => findTypesInV1 w s p) (fun s => Full w.bt w.facts w.v2 s.u)
-    (fun s p s' hs hv => findTypesInV1_full w hng hwf s s' p hs hv) _ _ st (full_empty w.bt w.facts w.v2) h
+    (fun s p s' hs hv => findTypesInV1_full w hwf s s' p hs hv) _ _ st (full_empty w.bt w.facts w.v2) h
 
-theorem addDirToV1_full (w : World) (hng : NoGenerics w.facts) (hwf : WellFormed w.facts w.v2) (st st' : LState) (path : Str)
+theorem addDirToV1_full (w : World) (hwf : WellFormed w.facts w.v2) (st st' : LState) (path : Str)
     (hinv : Full w.bt w.facts w.v2 st.u) (h : addDirToV1 w st path = some st') : Full w.bt w.facts w.v2 st'.u := by
   unfold addDirToV1 at h
-  exact findTypesInV1_full w hng hwf { st with requested := if st.requested.contains path then st.requested else st.requested ++ [path] } st' path hinv h
+  exact findTypesInV1_full w hwf { st with requested := if st.requested.contains path then st.requested else st.requested ++ [path] } st' path hinv h
 
 /-- what `Full` gives a reader of the universe: any object with a source node is what that node says -/
 theorem described {bt : List Builtin} {F : Facts} {v2 : Bool} {u : U} (h : Full bt F v2 u) (o : Nat) (ob : Obj) (g : Nat)
